@@ -1029,7 +1029,7 @@ int batchMain(int argc, char **argv) {
     fflush(stdout);
   }
   for (auto &u : unattributed)
-    printf("NOTE unattributed process death in %lld run(s) (belongs to C07, not to %s): %s\n", u.second, cfg.prop.c_str(), u.first.c_str());
+    printf("NOTE process death in %lld run(s) that this property does not cover (%s): %s\n", u.second, cfg.prop == "C07" ? "op started outside the C07 domain" : "C07 territory", u.first.c_str());
   for (auto &o : otherProps)
     printf("NOTE oracle of another property fired in %lld run(s) (not reported by this check): %s\n", o.second, o.first.c_str());
 
